@@ -130,7 +130,29 @@ def _is_multicol(g):
     if a is not None and a[0] == "ite":
         return all(_is_multicol(l) for _c, l in q.ite_leaves(g))
     c = q.is_cmp(g)
-    return c is not None and c[1] == "!=" and _shape_idx(g) == 1 and not T.mentions(g, lambda z: z[0] == "attr")
+    if c is None or c[1] != "!=" or _shape_idx(g) != 1 or T.mentions(g, lambda z: z[0] == "attr"):
+        return False
+    sh = [x for x in c[2].atoms() if x[0] == "sub"]
+    if len(sh) != 1:
+        return False
+    s = atom(sh[0])
+    return T.same(c[2], s - const(1)) or T.same(c[2], const(1) - s)
+
+
+def _holds_for_2d(g):
+    """A side condition of the univariate guard that is true of every validated (2-D) batch: a comparison of
+    len(<X>.shape) / <X>.ndim with constants, decided by folding with the value 2."""
+    def f(z):
+        if z[0] == "call" and z[1] == "len" and len(z[2]) == 1:
+            if all((b.single_atom() or ("",))[0] == "getattr" and b.single_atom()[2] == "shape" or
+                   ((b.single_atom() or ("",))[0] == "call" and b.single_atom()[1] == "numpy.shape") for _c, b in q.ite_leaves(z[2][0])):
+                return const(2)
+        if z[0] == "getattr" and z[2] == "ndim":
+            return const(2)
+        if z[0] == "call" and z[1] == "numpy.ndim":
+            return const(2)
+        return None
+    return T.subst(g, f) == T.TRUE
 
 
 def _neg(g):
@@ -360,6 +382,11 @@ def univariate(ctx, cname):
         tr = ctx.trace(cname, meth, assume={"_drift_state": None}, nonnull=("X",))
         rs = [e for e in tr.raises() if e.func.qualname == site and e.exc == "ValueError" and len(e.stack) == 1 and any(_is_multicol(g) for g in guards(e))]
         ctx.ob("GRD", site, "multi-column data is rejected with ValueError (univariate detector)", len(rs) == 1, "", rs[0] if rs else None)
+        for e in rs[:1]:
+            side = [x for g in guards(e) for x in q.conjuncts(g) if not _is_multicol(x)]
+            bad = [x for x in side if not _holds_for_2d(x)]
+            ctx.ob("GRD", site, "the univariate guard depends on the column count only", not bad,
+                   "further condition(s) on the rejection that a validated 2-D batch need not satisfy: %s" % "; ".join(q.short(x, 80) for x in bad[:2]), e)
         tot = q.counters(ctx.prog, ctx.prog.cls(cname))[0]
         cnt = tr.stores(tot)
         if rs and cnt and meth == "update":
